@@ -129,6 +129,13 @@ func New{{ .VarName }}Endpoint(s {{ .ServiceVarName }}{{ range .Schemes }}, auth
 	if err != nil {
 		return nil, err
 	}
+	{{- if not .ViewedResult.ViewName }}
+	switch view {
+	case ""{{ range .ViewedResult.Views }}, {{ printf "%q" .Name }}{{ end }}:
+	default:
+		return nil, goa.Fault("method %q returned the view %q which its result type does not define", {{ printf "%q" .Name }}, view)
+	}
+	{{- end }}
 	vres := {{ $.ViewedResult.Init.Name }}(res, {{ if .ViewedResult.ViewName }}{{ printf "%q" .ViewedResult.ViewName }}{{ else }}view{{ end }})
 	return vres, nil
 	{{- else }}
@@ -139,6 +146,13 @@ func New{{ .VarName }}Endpoint(s {{ .ServiceVarName }}{{ range .Schemes }}, auth
 	if err != nil {
 		return nil, err
 	}
+	{{- if not .ViewedResult.ViewName }}
+	switch view {
+	case ""{{ range .ViewedResult.Views }}, {{ printf "%q" .Name }}{{ end }}:
+	default:
+		return nil, goa.Fault("method %q returned the view %q which its result type does not define", {{ printf "%q" .Name }}, view)
+	}
+	{{- end }}
 	vres := {{ $.ViewedResult.Init.Name }}(res, {{ if .ViewedResult.ViewName }}{{ printf "%q" .ViewedResult.ViewName }}{{ else }}view{{ end }})
 	return vres, nil
 {{- else if .SkipResponseBodyEncodeDecode }}
